@@ -17,9 +17,16 @@ import tempfile
 
 import json
 
+import mpf.tests.MpfTestCase as _mtc
 from mpf.tests.MpfTestCase import MpfTestCase
 from mpf.tests.MpfFakeGameTestCase import MpfFakeGameTestCase
 from mpf.tests.MpfGameTestCase import MpfGameTestCase
+
+
+# MpfTestCase aborts a boot that takes more than 20 s of WALL-CLOCK time ("Start took more than 20s"). On a heavily
+# loaded box (many checks in parallel) that limit is hit by a perfectly healthy tree and would be reported as a case that
+# could not be run. The limit says nothing about the properties; vlib's per-case timeout still bounds a boot that hangs.
+_mtc.LOCAL_START_TIMEOUT = int(os.environ.get("VERIF_BOOT_TIMEOUT_S", "300"))
 
 
 def _write_machine(config, modes, shows=None):
